@@ -197,4 +197,8 @@ DESIGNED = [
      ('p2/lnk', 'l', '../outside'), ('outside', 'd', None), ('outside/x', 'd', None), ('outside/x/secret', 'f', None)],
     [('p', 'd', None), ('p/a', 'd', None), ('real', 'd', None), ('real/x', 'f', None), ('real/r', 'd', None), ('real/r/x', 'f', None),
      ('p/a/q', 'l', '../../real'), ('p/a/d', 'd', None), ('p/a/d/x', 'f', None)],
+    # names that are harmless on a Unix file system but special somewhere in the library: a backslash at the end of a file
+    # name (a separator under Windows rules only), a line feed inside a directory name, pattern metacharacters
+    [('e\\', 'f', None), ('w', 'd', None), ('w/a\\', 'f', None), ('w/a\\.', 'f', None), ('nl\nd', 'd', None), ('nl\nd/f', 'f', None),
+     ('@(a', 'd', None), ('@(a/[b', 'f', None), ('x|y', 'f', None), ('plain', 'f', None)],
 ]
